@@ -137,7 +137,9 @@ VOCAB = {
         "Reset": {"coq": "unit", "var": "rs", "fields": {}},
     },
     "type_alias": {"str": BYTES, "Formatter": FMT},
-    "param_types": {"write": WRITER, "background": COLOR},
+    # `&mut dyn std::io::Write` is the scripted writer of Spec/Io.v; `impl Into<Color>` is read as a Color (`.into()` on it
+    # is the identity: the conversions themselves are the translated From impls)
+    "opaque_types": {"std::io::Write": WRITER, "Into<Color>": COLOR},
     "ret_types": RET_TYPES,
     "consts": {"DISPLAY_BUFFER_CAPACITY": ("rn_display_buffer_capacity", USZ),
                "RESET": ("rn_reset_str", BYTES),               # Generated/Render.v, read from reset.rs by gen_render.py
